@@ -139,6 +139,12 @@ pub trait World {
     fn conc_history(_rng: &mut Rng, _shape: u64) -> Option<Vec<Self::Op>> {
         None
     }
+    /// Source files of the crate whose panics count against this property in the concurrent
+    /// phase (a panic elsewhere is some other property's business).
+    #[allow(dead_code)]
+    fn anchored_files() -> &'static [&'static str] {
+        &[]
+    }
     /// Kinds that create objects (kept when a history is thinned for the concurrent phase).
     #[allow(dead_code)]
     fn builder_kinds() -> &'static [usize] {
@@ -183,6 +189,21 @@ pub fn at(step: usize, kind: usize, sub: &'static str) {
     CUR_SUB.with(|c| c.set(sub));
 }
 
+static LAST_PANIC: std::sync::Mutex<String> = std::sync::Mutex::new(String::new());
+
+#[allow(dead_code)]
+pub fn clear_last_panic() {
+    if let Ok(mut g) = LAST_PANIC.lock() {
+        g.clear();
+    }
+}
+
+/// Message and location of the first panic on any thread of this process since the last clear.
+#[allow(dead_code)]
+pub fn last_panic_anywhere() -> String {
+    LAST_PANIC.lock().map(|g| g.clone()).unwrap_or_default()
+}
+
 pub fn install_quiet_panic_hook() {
     std::panic::set_hook(Box::new(|info| {
         let msg = if let Some(s) = info.payload().downcast_ref::<&str>() {
@@ -193,6 +214,11 @@ pub fn install_quiet_panic_hook() {
             "<non-string panic payload>".to_string()
         };
         let loc = info.location().map(|l| format!(" at {}:{}", l.file(), l.line())).unwrap_or_default();
+        if let Ok(mut g) = LAST_PANIC.lock() {
+            if g.is_empty() {
+                *g = format!("{}{}", msg, loc); // the first one since it was last cleared
+            }
+        }
         PANIC_MSG.with(|m| *m.borrow_mut() = format!("{}{}", msg, loc));
     }));
 }
@@ -207,7 +233,20 @@ pub fn run_one<W: World>(ops: &[W::Op], obs: &mut Obs) -> Outcome {
             let kind = CUR_KIND.with(|c| c.get());
             let sub = CUR_SUB.with(|c| c.get());
             let msg = PANIC_MSG.with(|m| m.borrow().clone());
-            let class = format!("panic/{}/{}", W::op_kinds().get(kind).copied().unwrap_or("?"), sub);
+            // a panic whose location is one of the harness's own files (built with relative paths,
+            // `src/…`; the crate and the standard library have absolute ones) is our bug, not a finding
+            let in_harness = msg.rsplit(" at ").next().map(|loc| loc.starts_with("src/")).unwrap_or(false);
+            // … and a panic in crate code outside the files this property is anchored in belongs to
+            // some other property (e.g. a container setter panicking while a bit-set history runs)
+            let loc = msg.rsplit(" at ").next().unwrap_or("");
+            let foreign = !in_harness && loc.starts_with('/') && !W::anchored_files().is_empty() && !W::anchored_files().iter().any(|f| loc.contains(f)) && !loc.contains("/rustc/") && !loc.contains("/library/");
+            if foreign {
+                let mut d = fold(FNV_OFFSET, 0xF0E1);
+                d = fold(d, step as u64);
+                obs.log(format!("#{} panic in crate code outside this property's files ({}): history given up, not judged", step, msg));
+                return Outcome { digest: d, steps: step as u32 + 1, violation: None, nontrivial: false };
+            }
+            let class = if in_harness { format!("harness-panic/{}/{}", W::op_kinds().get(kind).copied().unwrap_or("?"), sub) } else { format!("panic/{}/{}", W::op_kinds().get(kind).copied().unwrap_or("?"), sub) };
             let mut d = fold(FNV_OFFSET, 0xDEAD);
             d = fold(d, step as u64);
             for b in class.bytes() {
@@ -278,7 +317,12 @@ pub struct BatchCfg {
 /// say) still behaves the same in the lane that found a failure and in the process that replays it.
 pub fn child_command(exe: &std::path::Path) -> std::process::Command {
     let setarch = std::path::Path::new("/usr/bin/setarch");
-    if setarch.exists() && std::env::var_os("CKC_SIM_NO_SETARCH").is_none() {
+    static USABLE: std::sync::OnceLock<bool> = std::sync::OnceLock::new();
+    let usable = *USABLE.get_or_init(|| {
+        // some sandboxes refuse personality(ADDR_NO_RANDOMIZE): probe once
+        setarch.exists() && std::env::var_os("CKC_SIM_NO_SETARCH").is_none() && std::process::Command::new(setarch).arg(std::env::consts::ARCH).arg("-R").arg("true").stdout(std::process::Stdio::null()).stderr(std::process::Stdio::null()).status().map(|s| s.success()).unwrap_or(false)
+    });
+    if usable {
         let mut c = std::process::Command::new(setarch);
         c.arg(std::env::consts::ARCH).arg("-R").arg(exe);
         c
